@@ -311,6 +311,13 @@ def map_rule(ck, F, E, P):
     if ad is not None:
         ins = [c for c in ad.calls() if c.callee.endswith("HashMap::insert")]
         psh = [c for c in ad.calls() if c.callee.endswith("Vec::push")]
+        # the push may be delegated to a sibling method that does nothing but push its argument onto file_line_ranges
+        for c in ad.calls():
+            hb = F.bodies.get(c.callee)
+            if hb is not None and hb.self_adt == ad.self_adt and c.callee != ad.path:
+                hp = [x for x in hb.calls() if x.callee.endswith("Vec::push") and "file_line_ranges" in show(hb.expr(x.args[0]))]
+                if len(hp) == 1 and len([x for x in hb.calls() if not x.callee.endswith("Vec::push")]) == 0:
+                    psh.append(c)
         ok = False
         for i in ins:
             v = strip_expr(ad.expr(i.args[2]))
